@@ -47,6 +47,7 @@ type Explorer struct {
 	solverTimeout int
 	optShuffle    bool
 	tier          int
+	sizes         types.Sizes
 	noMerge       bool
 
 	mu        sync.Mutex
